@@ -1,6 +1,6 @@
 (** Evaluator of the C10 correspondence stream.
 
-    One generated case is one of four kinds (all instants/durations in
+    One recorded case is one of five kinds (plus [CBroken] for a case the driver could not run) (all instants/durations in
     nanoseconds, `exp`/NotAfter of the seconds-based mechanisms in seconds):
 
     [CExec]  a mechanism created by the real factory from a prototype `cache_ttl`
@@ -16,12 +16,15 @@
              the round tripper) with a real cache backend: hit/miss pattern.
 
     Wall-clock: the driver brackets every call by two clock readings; [dmax]
-    is the width of the bracket.  Functions that read whole seconds are only
+    is the width of the bracket.  Calls that read whole seconds are only
     recorded when both readings fall into the same second ([now] = that second);
-    for nanosecond-based ones the observation has to lie between the model's
-    answers at both ends of the bracket.
+    the model is evaluated at the end of the bracket that gives the LARGEST ttl,
+    which the observation must not exceed.
 
-    Per case: (i) [v_corr]: model = observation, (ii) [v_prop]: the property's
+    [CMix]   like [CHist] for one mechanism prototype, every request under its
+             own rule-level `cache_ttl`.
+
+    Per case: (i) [v_corr]: the observation REFINES the model (never more permissive), (ii) [v_prop]: the property's
     predicate (written from the property text, independent of the model
     functions) on the IMPLEMENTATION's observation, (iii) the finding guards. *)
 From HV Require Export Base.Prelude Base.Time C10.Model C10.Proofs C10.Mixed.
